@@ -16,6 +16,19 @@ def run(ctx, rep):
         rep.floor("commit_fns", len(commits), exp, cfg)
         for p in commits:
             check_commit(cfg, w, rep, w.prog.fns[p])
+        # the size guard compares the declared size with the writer's byte counter: that counter is `+= amount reported by
+        # the inner writer` in every data-accepting method of the keyed writers (C02 c, re-checked here)
+        from ..framework import Report
+        from . import c02
+        sub = Report("C02")
+        c02.check_config(cfg, w, sub)
+        for (c_, rule, k, desc, ok) in sub.obligations:
+            if rule == "c-counter" and ok:
+                rep.ob(cfg, "g2/c-counter", k, desc)
+        for k, v in sub.violations.items():
+            if v.rule == "c-counter":
+                rep.violation("g2:%s" % k, "the declared size would be compared with a wrong byte count — " + v.msg, loc=v.loc, config=cfg,
+                              rule="g2/c-counter")
     return rep
 
 
